@@ -11,6 +11,7 @@ import (
 	"github.com/klev-dev/klevdb/pkg/index"
 	"github.com/klev-dev/klevdb/pkg/kdir"
 	"github.com/klev-dev/klevdb/pkg/message"
+	"github.com/klev-dev/klevdb/pkg/verifhook"
 )
 
 type Segment struct {
@@ -121,6 +122,7 @@ func (s Segment) Recover(params index.Params) error {
 	if err := os.Remove(restorePath); err != nil && !errors.Is(err, os.ErrNotExist) {
 		return fmt.Errorf("restore remove stale temp: %w", err)
 	}
+	verifhook.FS("remove", "Recover/drop-stale", restorePath, "")
 	restore, err := message.OpenWriter(restorePath, s.Offset, log.Version())
 	if err != nil {
 		return err
@@ -170,10 +172,12 @@ func (s Segment) Recover(params index.Params) error {
 		if err := os.Rename(restore.Path, log.Path); err != nil {
 			return fmt.Errorf("restore log rename: %w", err)
 		}
+		verifhook.FS("rename", "Recover/swap", restore.Path, log.Path)
 	} else {
 		if err := os.Remove(restore.Path); err != nil {
 			return fmt.Errorf("restore log delete: %w", err)
 		}
+		verifhook.FS("remove", "Recover/drop-temp", restore.Path, "")
 	}
 
 	var corruptedIndex = false
@@ -194,6 +198,7 @@ func (s Segment) Recover(params index.Params) error {
 		if err := os.Remove(s.Index); err != nil {
 			return fmt.Errorf("restore index delete: %w", err)
 		}
+		verifhook.FS("remove", "Recover/drop-index", s.Index, "")
 		if indexVersion != index.VUnknown {
 			if err := index.Write(s.Index, s.Offset, indexVersion, params, restoreIndex); err != nil {
 				return fmt.Errorf("restore index write: %w", err)
@@ -323,11 +328,13 @@ func (s Segment) Migrate(mversion message.Version, iversion index.Version, param
 	case err != nil:
 		return fmt.Errorf("migrate index remove: %w", err)
 	}
+	verifhook.FS("remove", "Migrate/drop-index", s.Index, "")
 
 	migratedPath := s.Log + ".migrate"
 	if err := os.Remove(migratedPath); err != nil && !errors.Is(err, os.ErrNotExist) {
 		return fmt.Errorf("migrate remove stale temp: %w", err)
 	}
+	verifhook.FS("remove", "Migrate/drop-stale", migratedPath, "")
 	migratedLog, err := message.OpenWriter(migratedPath, s.Offset, mversion)
 	if err != nil {
 		return fmt.Errorf("migrate open writer: %w", err)
@@ -367,6 +374,7 @@ func (s Segment) Migrate(mversion message.Version, iversion index.Version, param
 	if err := os.Rename(migratedLog.Path, s.Log); err != nil {
 		return fmt.Errorf("migrate log rename: %w", err)
 	}
+	verifhook.FS("rename", "Migrate/swap", migratedLog.Path, s.Log)
 	if err := index.Write(s.Index, s.Offset, iversion, params, migratedIndex); err != nil {
 		return fmt.Errorf("migrate index write: %w", err)
 	}
@@ -382,10 +390,12 @@ func (olds Segment) Rename(news Segment) error {
 	if err := os.Rename(olds.Log, news.Log); err != nil {
 		return fmt.Errorf("rename log rename: %w", err)
 	}
+	verifhook.FS("rename", "Rename/log", olds.Log, news.Log)
 
 	if err := os.Rename(olds.Index, news.Index); err != nil {
 		return fmt.Errorf("rename index rename: %w", err)
 	}
+	verifhook.FS("rename", "Rename/index", olds.Index, news.Index)
 
 	if err := news.syncDir(); err != nil {
 		return fmt.Errorf("rename sync dir: %w", err)
@@ -399,13 +409,16 @@ func (olds Segment) Override(news Segment) error {
 	if err := os.Remove(news.Index); err != nil {
 		return fmt.Errorf("override index delete: %w", err)
 	}
+	verifhook.FS("remove", "Override/drop-index", news.Index, "")
 
 	if err := os.Rename(olds.Log, news.Log); err != nil {
 		return fmt.Errorf("override log rename: %w", err)
 	}
+	verifhook.FS("rename", "Override/log", olds.Log, news.Log)
 	if err := os.Rename(olds.Index, news.Index); err != nil {
 		return fmt.Errorf("override index rename: %w", err)
 	}
+	verifhook.FS("rename", "Override/index", olds.Index, news.Index)
 
 	if err := news.syncDir(); err != nil {
 		return fmt.Errorf("override sync dir: %w", err)
@@ -418,9 +431,11 @@ func (s Segment) Remove() error {
 	if err := os.Remove(s.Index); err != nil {
 		return fmt.Errorf("remove index delete: %w", err)
 	}
+	verifhook.FS("remove", "Remove/index", s.Index, "")
 	if err := os.Remove(s.Log); err != nil {
 		return fmt.Errorf("remove log delete: %w", err)
 	}
+	verifhook.FS("remove", "Remove/log", s.Log, "")
 	return nil
 }
 
